@@ -74,6 +74,7 @@ TraceSVisitMeta ==
                       /\ ev.mode = v.mode /\ ev.is_dir = v.is_dir)
            /\ nmeta' = nmeta + 1 /\ phase' = (IF nmeta + 1 = Len(E) THEN "done" ELSE "central")
            /\ UNCHANGED <<E, spos, cur, pulled, done, nfile>>
+TraceSPath == IsEvent("SPath") /\ UNCHANGED <<vars, cl, mode>>        \* judged by Trace_Path (C06)
 TraceSVisitEnd ==
    /\ IsEvent("SVisitEnd") /\ ev.r # "panic" /\ UNCHANGED <<vars, cl, mode>>
    /\ Check(Good /\ AllOk => (ev.r = "ok" /\ ev.nfile = Len(E) /\ ev.nmeta = Len(E) /\ phase = "done"))
@@ -82,7 +83,7 @@ TraceSVisitEnd ==
 TraceInit == /\ l = 1 /\ cl = [ok |-> FALSE] /\ mode = "pull" /\ E = <<>> /\ spos = 0 /\ cur = 0 /\ pulled = 0
              /\ phase = "files" /\ done = 0 /\ nfile = 0 /\ nmeta = 0 /\ TLCSet(1, 0)
 TraceNext == TraceReset \/ TraceSOpen \/ TraceSNext \/ TraceSRead \/ TraceSRelease \/ TraceSVisitStart
-             \/ TraceSVisitFile \/ TraceSVisitMeta \/ TraceSVisitEnd
+             \/ TraceSVisitFile \/ TraceSVisitMeta \/ TraceSVisitEnd \/ TraceSPath
 TraceSpec == TraceInit /\ [][TraceNext]_tvars
 TraceInv == (E # <<>>) => (OnRecordBoundary /\ VisitOrder)
 TraceAccepted ==
